@@ -275,9 +275,19 @@ func init() {
 	// cilium/ebpf Map.Put/Update/Delete: kernel map writes; key/value are only read, no
 	// effect on the modelled Go state; the error result is unconstrained
 	for _, name := range []string{"Put", "Update", "Delete"} {
+		name := name
 		libModels["(*github.com/cilium/ebpf.Map)."+name] = func(fv *funcVerifier, st *State, call *ast.CallExpr, fn *types.Func) []smt.Term {
 			fv.evalCallee(st, call.Fun)
 			fv.evalArgs(st, call, fn.Type().(*types.Signature))
+			// observable through function-level ghost counters, when the contract declares them:
+			// bpfPuts (Put / Update calls made) and bpfDeletes (Delete calls made)
+			g := "bpfPuts"
+			if name == "Delete" {
+				g = "bpfDeletes"
+			}
+			if cur, ok := st.ghost[g]; ok && !st.dead() {
+				st.ghost[g] = fv.c.Let("ghost_"+g, smt.Add(cur, smt.IntLit(1)))
+			}
 			return fv.freshResults(st, call, "bpfmap")
 		}
 	}
